@@ -9,6 +9,7 @@
 #include "EbReferenceObject.h"
 #include "EbPictureBufferDesc.h"
 #include "EbMalloc.h"
+#include "EbUtility.h"
 void svt_print_alloc_fail(const char *f, int l) { (void)f; (void)l; }
 #include "c26_psnr.inc"
 #ifndef VW
